@@ -246,23 +246,60 @@ def r2(ctx):
                        'only after a successful checkSecret: %s' % ok)
     g = fb.fn('ebusd::MainLoop::executeGet')
     ctx.touch(g)
-    cs = [c for c in g.all('CXXMemberCallExpr') if (g.nodes[c].get('callee') or '').endswith('::checkSecret')]
-    for c in cs:
-        # the failing edge must assign a non-OK result that later dominates (false edge) the lookups
-        fails = g.edges_with_atom(g.key(c), False)
-        lookups = [x for x in g.all('CXXMemberCallExpr') if (g.nodes[x].get('callee') or '').endswith('MessageMap::findAll')]
-        ok = bool(fails) and bool(lookups)
-        for (b, j) in fails:
-            tgt = g.blocks[b].succs[j]
-            # from the failure edge no lookup is reachable while ret stays != OK: approximate by requiring the lookups to be
-            # guarded by (ret == OK)
-            pass
-        for x in lookups:
-            atoms = set((a[0], a[1]) for a in g.atoms(x))
-            if not any(k in ('(ret == #0)', '(result == #0)') and p for k, p in atoms):
-                ok = False
+    # typestate: the level list of a named user is used only after checkSecret(user, secret) succeeded on that path
+    uses = [c for c in g.all('CXXMemberCallExpr') if (g.nodes[c].get('callee') or '').endswith('::getUserLevels')]
+    if not uses:
+        raise AnalysisBroken('C16.R2: getUserLevels not used in executeGet')
+    uname = g.key(g.nodes[uses[0]]['args'][0])
+    bad = {}
+    good = set()
+    okv = 0
+
+    def on_elem(user, e, path):
+        auth, ret = user
+        v = g.nodes[e]
+        if v['k'] == 'BinaryOperator' and v.get('op') == '=' and g.key(v['lhs']) == 'ret':
+            x = g.val(v['rhs'])
+            ret = 'ok' if x == okv else ('err' if x is not None and x < 0 else '?')
+        elif v['k'] == 'DeclStmt':
+            for dd in v.get('decls', []):
+                if dd['name'] == 'ret' and 'init' in dd:
+                    x = g.val(dd['init'])
+                    ret = 'ok' if x == okv else ('err' if x is not None and x < 0 else '?')
+                if dd['name'] == uname:
+                    iv = g.nodes.get(g.strip(dd.get('init', -1)), {})
+                    # default constructed: the empty user name selects the default ACL entry
+                    auth = 'ok' if (not dd.get('init') or (iv.get('k') == 'CXXConstructExpr' and not iv.get('args'))) else '?'
+        elif v['k'] == 'CXXOperatorCallExpr' and v.get('op') in ('=', '+=') and v.get('args') and g.key(v['args'][0]) == uname:
+            auth = '?'
+        if e in uses:
+            if auth != 'ok' and ret != 'err':
+                bad.setdefault(e, path)
+            else:
+                good.add(e)
+        return (auth, ret)
+
+    def on_edge(user, b, j, dnf):
+        auth, ret = user
+        if len(dnf) == 1:
+            for a in dnf[0]:
+                k, p = facts.atom_key(g, a)
+                if k == '%s.empty()' % uname and p:
+                    auth = 'ok'
+                if 'checkSecret(%s,' % uname in k:
+                    auth = 'ok' if p else 'bad'
+                if k == '(ret == #0)':
+                    if (p and ret == 'err') or (not p and ret == 'ok'):
+                        return None
+                    ret = 'ok' if p else ret
+        return (auth, ret)
+
+    ex = Explorer(g, on_elem=on_elem, on_edge=on_edge)
+    ex.run(g.entry, 0, ('?', '?'))
+    for c in uses:
         n += 1
-        ctx.ob('C16.R2', g, c, ok, 'HTTP user/secret check', 'lookups run only while the result is still OK after checkSecret: %s' % ok)
+        ctx.ob('C16.R2', g, c, c not in bad, 'HTTP: levels of the named user', 'used only after checkSecret succeeded (or without '
+               'user name): %s' % (c not in bad), witness=ex.describe_path(bad[c]) if c in bad else None)
     # sinks: who assigns m_levels
     for f in fb.functions:
         for nid, d, rhs, op, lhs in f.assignments():
